@@ -209,6 +209,9 @@ def _phase(pid, tier):
         # verdict-free: the transfer of the written files to the billing domain, against spec/Cgf.tla
         from . import fam_cgf
         return fam_cgf.phase(tier)
+    if pid == "C01" and tier == "thorough":
+        from . import fam_cgf
+        return fam_cgf.ind_phase()
     if pid != "C10":
         return None
     from . import fam_conc
@@ -219,6 +222,10 @@ def check(pid, tier, replay=None):
     slices, extra = cfg(pid, tier)
     limit = max(x["consts"]["Limit"] for x in slices)
     for x in slices:
+        if pid in ("C01", "C06"):
+            # every step of the slice is, per account, a step of the abstract machine AcctInd (refinement, checked by TLC);
+            # AcctInd's Conservation is proved inductive by Apalache (./vf extra ind; phase of the thorough tier)
+            x["properties"] = ["RefinesAcct"]
         x["consts"] = dict(x["consts"], EmitOneIn=1)
         x["consts"].update(DEV)
         lim = x["consts"]["Limit"]
